@@ -342,12 +342,12 @@ theorem nonaR_as_rows (idx : List Int) (n : String) (col : RCol) (h : col.length
 /-- a frame with one (rectangular) column is reindexed like the Series of that column, with any fill method -/
 theorem lookF_one (idx : List Int) (n : String) (col : RCol) (h : col.length = idx.length) (m : Option Dir) (t : Int) :
     lookF { idx := idx, cols := [(n, col)] } m col t = lookR { idx := idx, vals := col } m t := by
-  obtain ⟨h1, h2⟩ := nonaR_as_rows idx n col h
+  obtain ⟨h1, h2⟩ := nonaR_as_rows idx "" col h
   cases m with
   | none => rfl
   | some d =>
     cases d <;> simp only [lookF, srcRow, lookR, h1, h2, List.getElem?_map, Option.bind_assoc] <;>
-      congr 1 <;> funext j <;> cases (validRows { idx := idx, cols := [(n, col)] })[j]? <;> simp
+      congr 1 <;> funext j <;> cases (validRows { idx := idx, cols := [("", col)] })[j]? <;> simp
 
 theorem colArg_one (d : Option Rat) (c : String) (idx : List Int) (n : String) (col : RCol) (ix : List Int) (m : Option Dir)
     (h : col.length = idx.length) :
